@@ -1,6 +1,6 @@
 #!/bin/bash
 # usage: tools/save_seed.sh <Cxx> <name> "<needs>" "<caught-by or MISSED>"
-ID="$1"; NAME="$2"; D=/tmp/seed/$ID/out; T=/verif/seeded/$ID-$NAME
+ID="$1"; NAME="$2"; D=${SEEDBASE:-/tmp/seed}/$ID/out; T=/verif/seeded/$ID-$NAME
 mkdir -p "$T"; cp "$D/patch.diff" "$T/patch.diff"; cp "$D/demo_test.rs" "$T/demo_test.rs"; cp "$D/README.md" "$T/README.agent.md" 2>/dev/null
 python3 - "$ID" "$T" "$3" "$4" <<'PY'
 import json,sys
